@@ -30,10 +30,22 @@ average::define_histogram!(hist3, 3);
 average::define_histogram!(hist4, 4);
 average::define_histogram!(hist7, 7);
 average::define_histogram!(hist10, 10);
+average::define_histogram!(hist15, 15);
+average::define_histogram!(hist16, 16);
+average::define_histogram!(hist31, 31);
+average::define_histogram!(hist33, 33);
+average::define_histogram!(hist64, 64);
 average::define_histogram!(hist100, 100);
+average::define_histogram!(hist127, 127);
 
 pub use hist1::Histogram as H1;
 pub use hist10::Histogram as H10;
+pub use hist127::Histogram as H127;
+pub use hist15::Histogram as H15;
+pub use hist16::Histogram as H16;
+pub use hist31::Histogram as H31;
+pub use hist33::Histogram as H33;
+pub use hist64::Histogram as H64;
 pub use hist100::Histogram as H100;
 pub use hist2::Histogram as H2;
 pub use hist3::Histogram as H3;
